@@ -44,6 +44,12 @@ def world(nrec):
     for lst in itertools.product(full, repeat=2):
         if contiguous(lst):
             yield list(lst)
+    # records of one chromosome that are NOT adjacent in the input (c1, c2, c1): nothing in the VCF format forbids it, and no
+    # record may be lost
+    inter = record_specs(ALLELES[:2], ["absent", 1])
+    for lst in itertools.product(inter, repeat=3):
+        if lst[0]["chrom"] == lst[2]["chrom"] != lst[1]["chrom"]:
+            yield list(lst)
     if nrec >= 3:
         for lst in itertools.product(small, repeat=3):
             if contiguous(lst):
